@@ -4,6 +4,7 @@ import CogentModel.Proofs.PruneLinear
 import CogentModel.Proofs.PruneCompress
 import CogentModel.Proofs.PruneFullLength
 import CogentModel.Proofs.PruneLabelings
+import CogentModel.Proofs.PruneCompressedEq
 /-! # C02 — the computed likelihood is the first-principles Felsenstein sum-product
 
 `Model/Prune.lean` is the executable model (the same definitions the native driver runs over
@@ -74,6 +75,22 @@ theorem full_length_expand {κ S : Type} [DecidableEq κ] [Zero S] (g : κ → S
   fullLength_eq g cols
 
 example : fullLength (fun k : Nat => 10 * k) [3, 1, 3, 3, 2, 1] = [30, 10, 30, 30, 20, 10] := by decide
+
+/-- **Hierarchical compression is sound.** `Model/PruneCompressed.lean` mirrors how the implementation
+really evaluates: every node stores only its unique columns (a leaf its unique motifs, an internal node
+the unique tuples of its children's unique-column numbers, `_indexed(zip(*child indexes))`), `inner`
+with the edge matrix is applied to whole child tables and products are taken through the index arrays.
+For an alignment of `n` columns (every leaf sequence of length `n`) the full-length likelihoods it
+returns are, column by column, the plain per-column pruning values. -/
+theorem compressed_prune_eq {R α : Type} [CommSemiring R] (m n : Nat) (π : Nat → R) (seqs : α → List Nat)
+    (symProf : Nat → Nat → R) (t : PTree R α) (hl : ∀ a ∈ t.leaves, (seqs a).length = n) :
+    clhFull m n π seqs symProf t = (List.range n).map fun j => lh m π (colProf seqs symProf j) t :=
+  clhFull_eq m n π seqs symProf t hl
+
+example : clhFull 2 4 exPi (fun a => if a = 0 then [0, 1, 0, 0] else [1, 1, 1, 0]) (fun sym s => if sym = s then 1 else 0) exTree
+    = [114, 522, 114, 306] := by decide
+example : (cplh 2 4 (fun a => if a = 0 then [0, 1, 0, 0] else [1, 1, 1, 0]) (fun sym s => if sym = s then (1 : Nat) else 0) exTree).index
+    = [0, 1, 0, 2] := by decide
 
 /-- **Ambiguity is a set sum.** If the symbol of leaf `a` (a tip that occurs once in the tree) is
 degenerate with compatible state set `K` (profile = indicator of `K`: IUPAC codes, `?`, recoded
